@@ -1,6 +1,10 @@
 import PbVerif.Driver.Util
-import PbVerif.Model.Wire
-/- `pbmodel_wire`: executes Gen.Wire (translated) and Model.Wire (hand-written) on request lines. -/
+import PbVerif.Gen.Wire
+import PbVerif.Model.WireSpec
+/- `pbmodel_wire`: executes Gen.Wire (translated from wire.go) for the leaf functions and the
+specification scanner `Spec.*` (hand-written model of the looping consumeFieldValueD) on request
+lines; `spec*` verbs expose the specification of the leaves too, so that the harness ties both
+to the Go code. -/
 open Driver Gen.Wire
 
 def u64 (s : String) : Option (BitVec 64) := s.toNat?.map (BitVec.ofNat 64)
@@ -56,11 +60,38 @@ def wireStep : List String → String
   | ["appendGroup", n, h] => match i32 n, bytesOfHex h with
     | some n, some b => hexOfBytes (appendGroup [] n b) | _, _ => "bad-op"
   | ["consumeField", h] => match bytesOfHex h with
-    | some b => showOpt (fun (num, typ, n) => s!"{num.toInt} {typ.toInt} {n}") (Model.Wire.consumeField b) | none => "bad-op"
-  | ["consumeFieldValue", n, t, h] => match i32 n, i8 t, bytesOfHex h with
-    | some n, some t, some b => showOpt (fun (m : Int) => toString m) (Model.Wire.consumeFieldValue n t b) | _, _, _ => "bad-op"
-  | ["consumeGroup", n, h] => match i32 n, bytesOfHex h with
-    | some n, some b => showOpt (fun (v, m) => s!"{hexOfBytes v} {m}") (Model.Wire.consumeGroup n b) | _, _ => "bad-op"
+    | some b => (match Spec.consumeField b with
+      | .ok (num, typ, n) => s!"{num} {typ} {n}"
+      | .error e => s!"0 0 {e.code}")
+    | none => "bad-op"
+  | ["consumeFieldValue", n, t, h] => match n.toNat?, t.toNat?, bytesOfHex h with
+    | some n, some t, some b => (match Spec.consumeFieldValue n t b with
+      | .ok m => toString m
+      | .error e => toString e.code)
+    | _, _, _ => "bad-op"
+  | ["consumeGroup", n, h] => match n.toNat?, bytesOfHex h with
+    | some n, some b => (match Spec.consumeGroup n b with
+      | .ok (v, m) => s!"{hexOfBytes v} {m}"
+      | .error e => s!"- {e.code}")
+    | _, _ => "bad-op"
+  | ["specVarint", h] => match bytesOfHex h with
+    | some b => (match Spec.decVarint b with
+      | .ok (v, n) => s!"{v} {n}"
+      | .error e => s!"0 {e.code}")
+    | none => "bad-op"
+  | ["specTag", h] => match bytesOfHex h with
+    | some b => (match Spec.decTag b with
+      | .ok (num, typ, n) => s!"{num} {typ} {n}"
+      | .error e => s!"0 0 {e.code}")
+    | none => "bad-op"
+  | ["specBytes", h] => match bytesOfHex h with
+    | some b => (match Spec.decBytes b with
+      | .ok (p, n) => s!"{hexOfBytes p} {n}"
+      | .error e => s!"- {e.code}")
+    | none => "bad-op"
+  | ["specEncVarint", v] => match v.toNat? with
+    | some v => hexOfBytes (Spec.encVarint v)
+    | none => "bad-op"
   | ["errCodes"] => s!"{errCodeTruncated} {errCodeFieldNumber} {errCodeOverflow} {errCodeReserved} {errCodeEndGroup} {errCodeRecursionDepth} {defaultRecursionLimit}"
   | _ => "bad-op"
 
